@@ -22,7 +22,7 @@ PROPS = {
             "a panic inside the harness adapters themselves would be reported as a violation; adapters only call exported API",
         ],
         "quick": {"scale": 1, "shards": 1, "timeout": 300},
-        "thorough": {"scale": 8, "shards": 16, "timeout": 1500,
+        "thorough": {"scale": 10, "shards": 16, "timeout": 2400,
                      "fuzz": [("FuzzNetutilText", 45), ("FuzzARPA", 45), ("FuzzHostsfile", 45), ("FuzzURL", 45), ("FuzzStringTime", 30)]},
     },
 }
@@ -43,7 +43,7 @@ PROPS["C02"] = {
     "assumptions": ["netip.ParseAddr/ParseAddrPort of go1.24.2 define the accepted language"],
     "expect_classes": {"ip:valid-v6-with-v4-tail": ("c02.ip", 0.005), "c02.ip:near-miss": ("c02.ip", 0.05)},
     "quick": {"scale": 3, "shards": 1, "timeout": 300},
-    "thorough": {"scale": 10, "shards": 16, "timeout": 1500, "fuzz": [("FuzzIP", 45), ("FuzzIPPort", 45), ("FuzzHost", 30)]},
+    "thorough": {"scale": 25, "shards": 16, "timeout": 2400, "fuzz": [("FuzzIP", 45), ("FuzzIPPort", 45), ("FuzzHost", 30)]},
 }
 
 PROPS["C03"] = {
@@ -60,7 +60,7 @@ PROPS["C03"] = {
     "assumptions": ["SRV service labels are limited to 16 bytes including the underscore (the statement's reading that matches RFC 6335 and the code)"],
     "expect_classes": {"host:label>63": 0.005, "host:too-long": 0.005, "label-len-63": 0.005, "ascii-len-253": 0.002, "srv:valid": 0.01},
     "quick": {"scale": 1, "shards": 1, "timeout": 300},
-    "thorough": {"scale": 10, "shards": 16, "timeout": 1500, "fuzz": [("FuzzName", 60)]},
+    "thorough": {"scale": 25, "shards": 16, "timeout": 2400, "fuzz": [("FuzzName", 60)]},
 }
 
 PROPS["C04"] = {
@@ -80,7 +80,7 @@ PROPS["C04"] = {
     "assumptions": [],
     "expect_classes": {"accept:accepted": 0.01, "accept:rejected-with-arpa-root": 0.1},
     "quick": {"scale": 3, "shards": 1, "timeout": 300},
-    "thorough": {"scale": 10, "shards": 16, "timeout": 1500, "fuzz": [("FuzzAccept", 60), ("FuzzRoundTrip", 30)]},
+    "thorough": {"scale": 30, "shards": 16, "timeout": 2400, "fuzz": [("FuzzAccept", 60), ("FuzzRoundTrip", 30)]},
 }
 
 PROPS["C05"] = {
@@ -99,7 +99,7 @@ PROPS["C05"] = {
     "assumptions": ["label search is done on the raw (ASCII-lowercased) text, validity on idna.ToASCII of it, as the code and the statement both do"],
     "expect_classes": {"c05.extract:embedded-in-longer-name": 0.01, "c05.prefix:decoded": 0.03},
     "quick": {"scale": 1, "shards": 1, "timeout": 300},
-    "thorough": {"scale": 10, "shards": 16, "timeout": 1500, "fuzz": [("FuzzARPAPrefix", 60)]},
+    "thorough": {"scale": 30, "shards": 16, "timeout": 2400, "fuzz": [("FuzzARPAPrefix", 60)]},
 }
 
 PROPS["C06"] = {
@@ -117,7 +117,7 @@ PROPS["C06"] = {
     "assumptions": ["a zoned address lies in a network iff the same address without zone does; 4in6 addresses are IPv6 addresses (netip semantics)"],
     "expect_classes": {},
     "quick": {"scale": 1, "shards": 1, "timeout": 300},
-    "thorough": {"scale": 10, "shards": 16, "timeout": 1500},
+    "thorough": {"scale": 60, "shards": 16, "timeout": 2400},
 }
 
 PROPS["C07"] = {
@@ -135,7 +135,7 @@ PROPS["C07"] = {
     "assumptions": [],
     "expect_classes": {"line:ok": 0.1, "bad-name-after-good-names": 0.02, "with-comment": 0.05, "with-CR": 0.02, "ok:zone-or-4in6": 0.01},
     "quick": {"scale": 3, "shards": 1, "timeout": 300},
-    "thorough": {"scale": 10, "shards": 16, "timeout": 1500, "fuzz": [("FuzzRecord", 60)]},
+    "thorough": {"scale": 30, "shards": 16, "timeout": 2400, "fuzz": [("FuzzRecord", 60)]},
 }
 
 PROPS["C08"] = {
@@ -154,7 +154,7 @@ PROPS["C08"] = {
     "assumptions": ["name case-insensitivity is asserted for ASCII letters only; non-ASCII names are exact-match tokens"],
     "expect_classes": {"parse:nontrivial": 0.1, "storage:nameless-record": 0.05},
     "quick": {"scale": 1, "shards": 1, "timeout": 300},
-    "thorough": {"scale": 10, "shards": 16, "timeout": 1500, "fuzz": [("FuzzParse", 60)]},
+    "thorough": {"scale": 25, "shards": 16, "timeout": 2400, "fuzz": [("FuzzParse", 60)]},
 }
 
 PROPS["C09"] = {
@@ -173,7 +173,7 @@ PROPS["C09"] = {
     "assumptions": ["whether the replaced entry counts towards the room needed is not fixed by the statement: the conservative (code) policy and replace-first are both admitted"],
     "expect_classes": {"history:with-eviction": 0.3, "history:with-operation-inside-OnDelete": 0.15, "history:with-refusal-without-LRU": 0.03},
     "quick": {"scale": 3, "shards": 1, "timeout": 300},
-    "thorough": {"scale": 6, "shards": 16, "timeout": 1500},
+    "thorough": {"scale": 60, "shards": 16, "timeout": 2400},
 }
 
 PROPS["C10"] = {
@@ -193,7 +193,7 @@ PROPS["C10"] = {
     "assumptions": ["bounded non-LRU configurations are checked for integrity, bounds and races only (a false Set is ambiguous there)"],
     "expect_classes": {},
     "quick": {"scale": 1, "shards": 1, "timeout": 600},
-    "thorough": {"scale": 3, "shards": 8, "timeout": 1500},
+    "thorough": {"scale": 10, "shards": 8, "timeout": 2400},
 }
 
 PROPS["C11"] = {
@@ -211,7 +211,7 @@ PROPS["C11"] = {
     "assumptions": [],
     "expect_classes": {"ring:wrap-around": 0.2, "ring:clear-after-push": 0.2, "set:clone-followed-by-mutation": 0.2},
     "quick": {"scale": 1, "shards": 1, "timeout": 300},
-    "thorough": {"scale": 8, "shards": 16, "timeout": 1500},
+    "thorough": {"scale": 50, "shards": 16, "timeout": 2400},
 }
 
 PROPS["C12"] = {
@@ -232,7 +232,7 @@ PROPS["C12"] = {
                     "zones cannot survive an unmap (netip cannot attach a zone to IPv4)"],
     "expect_classes": {"net:membership-checked-proper-subnet": 0.1, "net:rejected-bad-mask": 0.05},
     "quick": {"scale": 4, "shards": 1, "timeout": 300},
-    "thorough": {"scale": 10, "shards": 16, "timeout": 1500},
+    "thorough": {"scale": 150, "shards": 16, "timeout": 2400},
 }
 
 PROPS["C13"] = {
@@ -250,7 +250,7 @@ PROPS["C13"] = {
     "assumptions": [],
     "expect_classes": {"fold:true-via-non-identical-window": ("c13.fold", 0.1), "fold:needle-starts-with-orbit>=3": ("c13.fold", 0.1)},
     "quick": {"scale": 1, "shards": 1, "timeout": 300},
-    "thorough": {"scale": 10, "shards": 16, "timeout": 1500, "fuzz": [("FuzzFold", 60)]},
+    "thorough": {"scale": 40, "shards": 16, "timeout": 2400, "fuzz": [("FuzzFold", 60)]},
 }
 
 PROPS["C14"] = {
@@ -270,7 +270,7 @@ PROPS["C14"] = {
                     "the empty text is not a bare address and is not asserted for Prefix"],
     "expect_classes": {"url:accepted-needs-JSON-escaping": ("c14.url", 0.05), "prefix:with-slash-accepted": ("c14.prefix", 0.03)},
     "quick": {"scale": 3, "shards": 1, "timeout": 300},
-    "thorough": {"scale": 10, "shards": 16, "timeout": 1500, "fuzz": [("FuzzURL", 60), ("FuzzPrefixHostPort", 30)]},
+    "thorough": {"scale": 30, "shards": 16, "timeout": 2400, "fuzz": [("FuzzURL", 60), ("FuzzPrefixHostPort", 30)]},
 }
 
 PROPS["C15"] = {
@@ -290,7 +290,7 @@ PROPS["C15"] = {
     "assumptions": [],
     "expect_classes": {"read:buffer-straddles-allowance": ("c15.read", 0.1), "write:a-write-straddles-the-limit": ("c15.write", 0.2)},
     "quick": {"scale": 2, "shards": 1, "timeout": 300},
-    "thorough": {"scale": 12, "shards": 16, "timeout": 1500},
+    "thorough": {"scale": 100, "shards": 16, "timeout": 2400},
 }
 
 PROPS["C16"] = {
@@ -307,7 +307,7 @@ PROPS["C16"] = {
     "assumptions": ["a wrapped *url.Error is not top-level and must stay untouched (the statement says top-level)"],
     "expect_classes": {"two-different-userinfos": 0.3},
     "quick": {"scale": 3, "shards": 1, "timeout": 300},
-    "thorough": {"scale": 12, "shards": 16, "timeout": 1500},
+    "thorough": {"scale": 150, "shards": 16, "timeout": 2400},
 }
 
 PROPS["C17"] = {
@@ -332,7 +332,7 @@ PROPS["C17"] = {
     "assumptions": ["with a free slot and an already-done context Acquire may return either nil or the context's error (select picks either); not asserted"],
     "expect_classes": {"once:>=2-callers-arrived-during-construction": ("c17.once-bubble", 0.3), "sema:waiter-while-all-slots-held": ("c17.sema-bubble", 0.3)},
     "quick": {"scale": 1, "shards": 1, "timeout": 600},
-    "thorough": {"scale": 4, "shards": 8, "timeout": 1500},
+    "thorough": {"scale": 60, "shards": 8, "timeout": 2400},
 }
 
 PROPS["C18"] = {
@@ -354,7 +354,7 @@ PROPS["C18"] = {
     "assumptions": [],
     "expect_classes": {"signal:with-panicking-service": ("c18.signal", 0.2), "refresh:shutdown-during-in-flight-refresh": ("c18.refresh", 0.1)},
     "quick": {"scale": 5, "shards": 1, "timeout": 600},
-    "thorough": {"scale": 6, "shards": 16, "timeout": 1500},
+    "thorough": {"scale": 200, "shards": 16, "timeout": 2400},
 }
 
 PROPS["C19"] = {
@@ -378,7 +378,7 @@ PROPS["C19"] = {
     "assumptions": ["if the reference TextHandler itself returns an error for a record (e.g. a failing marshaler) the pair is skipped and counted"],
     "expect_classes": {"seq:record-handled-by-several-handlers": ("c19.seq", 0.3), "seq:record-with->5-attributes": ("c19.seq", 0.2), "seq:tree-with-siblings": ("c19.seq", 0.2)},
     "quick": {"scale": 1, "shards": 1, "timeout": 600},
-    "thorough": {"scale": 6, "shards": 16, "timeout": 1500},
+    "thorough": {"scale": 20, "shards": 16, "timeout": 2400},
 }
 
 PROPS["C20"] = {
@@ -399,7 +399,7 @@ PROPS["C20"] = {
     "assumptions": [],
     "expect_classes": {"batch:nontrivial": ("c20.batch", 0.5)},
     "quick": {"scale": 1, "shards": 1, "timeout": 600},
-    "thorough": {"scale": 4, "shards": 8, "timeout": 1500},
+    "thorough": {"scale": 40, "shards": 8, "timeout": 2400},
 }
 
 ALL_IDS = ["C%02d" % i for i in range(1, 21)]
